@@ -288,6 +288,7 @@ def check(pid, tier, seed, replay=None):
             pinned = [(["replayfile", os.path.join(cdir, f)], streams[0][1]) for f in sorted(os.listdir(cdir))]
             streams = pinned + list(streams)
     avx2_built = False
+    all_records = []
     for idx, entry in enumerate(streams):
         hargs, classify = entry[0], entry[1]
         opts = entry[2] if len(entry) > 2 else {}
@@ -334,6 +335,7 @@ def check(pid, tier, seed, replay=None):
                     continue
                 classify = on_def
             evaluations += 1
+            all_records.append((idx, " ".join(hargs), line.split(" ", 2)[1] if line.count(" ") >= 2 else "", extra))
             hparts = line.split(" IMPL ")[0].split(" ", 2)
             h = hashlib.sha1((hparts[2] if len(hparts) > 2 else line).encode()).hexdigest()
             distinct.add(h)
@@ -355,6 +357,11 @@ def check(pid, tier, seed, replay=None):
                 model_disagreements += 1
                 broken.append(("corr", "model and implementation disagree",
                                f"{with_def(line)}\nMODEL {mobs}\nP {extra}"))
+    post = spec.get("post_check")
+    if post:
+        for item in post(all_records):
+            failing.append(item)
+            prop_failures += 1
     if not samples and evaluations:
         samples.append("(no non-trivial sample)")
 
